@@ -11,6 +11,8 @@ import (
 	"encoding/binary"
 	"fmt"
 	"math"
+	"os"
+	"path/filepath"
 	"strings"
 
 	"github.com/deadsy/sdfx/render"
@@ -19,6 +21,8 @@ import (
 	v3 "github.com/deadsy/sdfx/vec/v3"
 	"github.com/deadsy/sdfx/verifrt/vos"
 	"github.com/deadsy/sdfx/verifrt/vsync"
+
+	"github.com/hpinc/go3mf"
 
 	"verif/lib/lattice"
 	"verif/lib/vlib"
@@ -148,6 +152,42 @@ func key3(ts []*sdf.Triangle3) string {
 	return fmt.Sprintf("%d:%x", len(ts), h.Sum(nil)[:8])
 }
 
+// scripted renderers for the file-sink scenarios
+type scriptedLines struct{ first, batches int }
+
+func (r scriptedLines) Render(_ sdf.SDF2, out sdf.Line2Writer) {
+	k := r.first
+	for b := 0; b < r.batches; b++ {
+		var ls []*sdf.Line2
+		for i := 0; i <= b; i++ {
+			ls = append(ls, &sdf.Line2{{X: float64(k), Y: 0}, {X: float64(k), Y: 1 + 0.125*float64(b)}})
+			k++
+		}
+		out.Write(ls)
+	}
+	out.Close()
+}
+func (scriptedLines) Info(sdf.SDF2) string { return "scripted" }
+
+type scriptedTris struct{ first, batches int }
+
+func (r scriptedTris) Render(_ sdf.SDF3, out sdf.Triangle3Writer) {
+	k := r.first
+	for b := 0; b < r.batches; b++ {
+		var ts []*sdf.Triangle3
+		for i := 0; i <= b; i++ {
+			f := float64(k)
+			ts = append(ts, &sdf.Triangle3{{X: f}, {X: f, Y: 1}, {X: f, Z: 1 + 0.125*float64(b)}})
+			k++
+		}
+		out.Write(ts)
+	}
+	out.Close()
+}
+func (scriptedTris) Info(sdf.SDF3) string { return "scripted" }
+
+var work = filepath.Join(vlib.VerifDir, ".work", "c09")
+
 type circle struct{ r float64 }
 
 func (c circle) Evaluate(p v2.Vec) float64 { return p.Length() - c.r }
@@ -249,6 +289,82 @@ func prepare(sc scen, j *vlib.Job) *prepared {
 			out = nil
 			out = append(out, key3(render.ToTriangles(s, mk())))
 		}
+	case "dxf-two", "dxf-history", "3mf-two":
+		// file sinks that go to the real file system (their libraries take a path): two different renders
+		// concurrently, and A;B;A one after the other; every file must equal the one written by the same
+		// render executed alone (3MF: decoded content, as the property says; DXF: bytes)
+		os.MkdirAll(work, 0o755)
+		base := filepath.Join(work, fmt.Sprintf("p%d", os.Getpid()))
+		ext := sc.Kind[:3]
+		s3a, _ := sdf.Sphere3D(1)
+		one := func(which int, path string) {
+			// scripted renderers (few synchronisation operations): 3 + 2*which batches of numbered items
+			if ext == "dxf" {
+				render.ToDXF(circle{1}, path, scriptedLines{first: 100 * which, batches: 2 + which})
+			} else {
+				render.To3MF(s3a, path, scriptedTris{first: 100 * which, batches: 2 + which})
+			}
+		}
+		digest := func(path string) string {
+			if ext == "3mf" {
+				r, err := go3mf.OpenReader(path)
+				if err != nil {
+					return "unreadable: " + err.Error()
+				}
+				defer r.Close()
+				var m go3mf.Model
+				if err := r.Decode(&m); err != nil {
+					return "undecodable: " + err.Error()
+				}
+				h := sha256.New()
+				for _, o := range m.Resources.Objects {
+					if o.Mesh != nil {
+						fmt.Fprint(h, o.Mesh.Vertices.Vertex, o.Mesh.Triangles.Triangle)
+					}
+				}
+				return fmt.Sprintf("%x", h.Sum(nil)[:8])
+			}
+			b, err := os.ReadFile(path)
+			if err != nil {
+				return "unreadable: " + err.Error()
+			}
+			return fmt.Sprintf("%x", sha256.Sum256(b))
+		}
+		// each render alone (one logical thread at a time, default schedule)
+		var alone [2]string
+		for w := 0; w < 2; w++ {
+			w := w
+			vsync.RunOnce(nil, false, func() { one(w, base+".alone."+ext) })
+			alone[w] = digest(base + ".alone." + ext)
+		}
+		if sc.Kind == "dxf-history" {
+			p.indep = fmt.Sprint([]string{alone[0], alone[1], alone[0]})
+			p.body = func() {
+				out = nil
+				for i, w := range []int{0, 1, 0} {
+					path := fmt.Sprintf("%s.h%d.%s", base, i, ext)
+					os.Remove(path)
+					one(w, path)
+					out = append(out, digest(path))
+				}
+			}
+		} else {
+			p.indep = fmt.Sprint([]string{alone[0], alone[1]})
+			p.body = func() {
+				out = make([]string, 2)
+				os.Remove(base + ".a." + ext)
+				os.Remove(base + ".b." + ext)
+				var wg vsync.WaitGroup
+				wg.Add(1)
+				vsync.Go(func() {
+					defer wg.Done()
+					one(1, base+".b."+ext)
+				})
+				one(0, base+".a."+ext)
+				wg.Wait()
+				out[0], out[1] = digest(base+".a."+ext), digest(base+".b."+ext)
+			}
+		}
 	case "svg":
 		p.body = func() {
 			out = nil
@@ -332,7 +448,8 @@ func main() {
 		scen{Kind: "stl", Lattice: L121, Workers: 2, Every: 0, Bound: b + 1},
 		scen{Kind: "two", Lattice: T, Workers: 1, Every: 0, Bound: 1},
 		scen{Kind: "history", Lattice: L25, Workers: 2, Every: 0, Bound: 1},
-		scen{Kind: "octree", Workers: 1, Bound: -1}, scen{Kind: "svg", Workers: 1, Bound: -1})
+		scen{Kind: "octree", Workers: 1, Bound: -1}, scen{Kind: "svg", Workers: 1, Bound: -1},
+		scen{Kind: "dxf-two", Workers: 1, Bound: -1}, scen{Kind: "dxf-history", Workers: 1, Bound: -1}, scen{Kind: "3mf-two", Workers: 1, Bound: -1})
 	if c.Thorough() {
 		scens = append(scens, scen{Kind: "triangles", Lattice: "1x14x13 n=14 (layer 225: 3 batches)", Workers: 3, Every: 100, Bound: 2},
 			scen{Kind: "two", Lattice: T, Workers: 2, Every: 0, Bound: 2}, scen{Kind: "two", Lattice: L25, Workers: 1, Every: 0, Bound: 1}, scen{Kind: "stl", Lattice: L100, Workers: 3, Every: 37, Bound: 2})
